@@ -21,6 +21,10 @@
 EXTENDS Progs0, Tree
 
 CONSTANT PinnedMerge    \* TRUE: op_merge as at the pinned commit (m_done never cleared)
+\* self-test switch (overridden with <- Yes in a configuration): op_merge clears m_done when its upstream is
+\* drained but leaves the branch cursor where it is (what seeded change C01-c does)
+MergeNoRewind == FALSE
+Yes == TRUE
 
 -----------------------------------------------------------------------------
 (* node table construction *)
@@ -460,12 +464,12 @@ Nx(ops, n, m0) ==
             IF mt.bad THEN Null(mt)
             ELSE IF mt.sc[n].done
             THEN (IF PinnedMerge THEN Null(mt)
-                  ELSE Null([mt EXCEPT !.sc[n].done = FALSE, !.sc[n].idx = 1]))
+                  ELSE Null([mt EXCEPT !.sc[n].done = FALSE, !.sc[n].idx = IF MergeNoRewind THEN @ ELSE 1]))
             ELSE LET x == Nx(ops, node.branches[mt.sc[n].idx], mt) IN
                  IF ~IsNull(x) THEN x
                  ELSE IF x.m.sc[n].done
                  THEN (IF PinnedMerge THEN Null(x.m)
-                       ELSE Null([x.m EXCEPT !.sc[n].done = FALSE, !.sc[n].idx = 1]))
+                       ELSE Null([x.m EXCEPT !.sc[n].done = FALSE, !.sc[n].idx = IF MergeNoRewind THEN @ ELSE 1]))
                  ELSE Nx(ops, n, [x.m EXCEPT !.sc[n].idx =
                                      IF @ = Len(node.branches) THEN 1 ELSE @ + 1])
       [] node.k = "or" ->
